@@ -8,7 +8,7 @@ import tempfile
 from ..common import Check, drive, uncps, cps
 from ..serial import outcome
 
-PATHS = ("yaml", "dicts", "merge", "files", "file1", "hexnames")
+PATHS = ("yaml", "dicts", "merge", "mergegen", "files", "file1", "hexnames")
 
 
 def uuid_of(k: int) -> str:
@@ -55,6 +55,8 @@ def run_one(docs, perm, path):
             coll = SigmaCollection.from_dicts(dicts)
         elif path == "merge":
             coll = SigmaCollection.merge([SigmaCollection.from_dicts([d], resolve_references=False) for d in dicts])
+        elif path == "mergegen":  # merge() takes any iterable: here a generator
+            coll = SigmaCollection.merge(SigmaCollection.from_dicts([d], resolve_references=False) for d in dicts)
         elif path == "file1":  # load_ruleset with ONE file that holds all documents
             tmp = tempfile.mkdtemp(prefix="verif_c09_")
             p = os.path.join(tmp, "all.yml")
